@@ -15,6 +15,7 @@ a pop that stores nothing shortens the worklist.
 import Mathlib.Data.DFinsupp.WellFounded
 import Mathlib.Order.WithBot
 import MosaikProofs.Closure.Complete
+import MosaikProofs.Closure.AncTable
 namespace Mosaik
 
 /-- every connection's source is a simulator (for built scenarios: `Build.BuiltOk.inShape`) -/
@@ -215,5 +216,167 @@ worklist of the cycle check empties — with enough fuel the model never answers
 theorem worklist_terminates (sims : List SimCfg) (orc : List Nat) (hS : Shaped sims) (hU : Uniform sims) (hR : SrcRange sims) :
     ∃ k, ∀ fuel, k ≤ fuel → cycLoop sims fuel (cycInit sims) orc ≠ .error .fuel :=
   cycLoop_terminates hS hU hR (depth_le_sum sims) _ _ (cycInit sims) (cycInit_real sims) rfl rfl orc
+
+/-! ### the worklist of `cache_triggering_ancestors`
+
+The same descent for the second closure; the table is indexed (destination, ancestor). -/
+
+def measA (n K : ℕ) (st : AncState) : Meas n K := fun t s =>
+  match st.get t.1 s.1 with
+  | none => ⊤
+  | some d => ((tierFn K d.tiers : Lex (Fin K → ℕ)) : WithTop (Lex (Fin K → ℕ)))
+
+theorem AncState.get_with_dirty (st : AncState) (dirty : List Sid) (t s : Sid) :
+    ({ st with dirty := dirty } : AncState).get t s = st.get t s := rfl
+
+theorem measA_put_lt {n K : ℕ} (c : AncState) {t s : Sid} (ht : t < n) (hs : s < n) (hlen : c.anc.length = n) (v : TI)
+    (dirty : List Sid)
+    (h : ∀ a, c.get t s = some a → v.tiers < a.tiers ∧ v.tiers.length = a.tiers.length ∧ v.tiers.length ≤ K) :
+    measA n K { (c.put t s v) with dirty := dirty } < measA n K c := by
+  have hother : ∀ (t' s' : Fin n), (t'.1, s'.1) ≠ (t, s) →
+      measA n K { (c.put t s v) with dirty := dirty } t' s' = measA n K c t' s' := by
+    intro t' s' hne
+    unfold measA
+    rw [AncState.get_with_dirty, AncState.get_put_ne _ _ _ _ _ _ hne]
+  have hat : measA n K { (c.put t s v) with dirty := dirty } ⟨t, ht⟩ ⟨s, hs⟩ < measA n K c ⟨t, ht⟩ ⟨s, hs⟩ := by
+    have hput : (c.put t s v).get t s = some v := AncState.get_put_same c t s v (by rw [hlen]; exact ht)
+    unfold measA
+    simp only [AncState.get_with_dirty, hput]
+    cases hold : c.get t s with
+    | none => exact WithTop.coe_lt_top _
+    | some a =>
+      obtain ⟨hlt, hl, hK⟩ := h a hold
+      exact WithTop.coe_lt_coe.mpr (tierFn_lt hl hK hlt)
+  have hle : ∀ (t' s' : Fin n), measA n K { (c.put t s v) with dirty := dirty } t' s' ≤ measA n K c t' s' := by
+    intro t' s'
+    by_cases hne : (t'.1, s'.1) = (t, s)
+    · have ht' : t' = ⟨t, ht⟩ := Fin.ext (by simpa using congrArg Prod.fst hne)
+      have hs' : s' = ⟨s, hs⟩ := Fin.ext (by simpa using congrArg Prod.snd hne)
+      subst ht' hs'
+      exact le_of_lt hat
+    · exact le_of_eq (hother t' s' hne)
+  rw [Pi.lt_def]
+  refine ⟨fun t' => Pi.le_def.mpr (hle t'), ⟨t, ht⟩, ?_⟩
+  rw [Pi.lt_def]
+  exact ⟨fun s' => hle _ s', ⟨s, hs⟩, hat⟩
+
+def ProgA (n K : ℕ) (c0 c : AncState) : Prop := c = c0 ∨ measA n K c < measA n K c0
+
+theorem ProgA.refl {n K : ℕ} (c : AncState) : ProgA n K c c := Or.inl rfl
+
+theorem ProgA.trans {n K : ℕ} {a b c : AncState} (h1 : ProgA n K a b) (h2 : ProgA n K b c) : ProgA n K a c := by
+  rcases h1 with rfl | h1
+  · exact h2
+  · rcases h2 with rfl | h2
+    · exact Or.inr h1
+    · exact Or.inr (lt_trans h2 h1)
+
+theorem trigPath_src_lt {sims : List SimCfg} {s t : Sid} {d : TI} (h : TrigPath sims s t d) : s < sims.length := by
+  induction h with
+  | edge he => exact mem_triggers_lt he
+  | snoc _ _ ih => exact ih
+
+/-- what the descent carries along: entries are real trigger paths, one row per simulator -/
+def AncOk (sims : List SimCfg) (c : AncState) : Prop := AncReal sims c ∧ c.anc.length = sims.length
+
+theorem ancOne_prog {sims : List SimCfg} (hS : ShapedT sims) (hR : TrigRange sims) (hU : UniformT sims) {K : ℕ}
+    (hK : ∀ t, (sims.getD t {}).depth ≤ K) {mid : Sid} {tr : Port × Sid × TI}
+    (htr : tr ∈ (sims.getD mid {}).triggers) {c : AncState} (e : Sid × TI) (hok : AncOk sims c) :
+    ∃ c', ancOne mid tr c e = .ok c' ∧ AncOk sims c' ∧ ProgA sims.length K c c' := by
+  obtain ⟨hreal, hlen⟩ := hok
+  unfold ancOne
+  cases hget : lookupTI (c.row mid) e.1 with
+  | none => exact ⟨c, rfl, ⟨hreal, hlen⟩, ProgA.refl c⟩
+  | some a =>
+    simp only
+    have hareal : TrigPath sims e.1 mid a := hreal mid e.1 a hget
+    have hadd : TI.add? a tr.2.2 = some (TI.add a tr.2.2) := by
+      unfold TI.add?
+      rw [if_pos]
+      rw [(trigPath_shape hS hareal).2, (hS _ _ htr).1]
+    rw [hadd]
+    simp only
+    have hnew : TrigPath sims e.1 tr.2.1 (TI.add a tr.2.2) := TrigPath.snoc hareal htr
+    have hsrc : e.1 < sims.length := trigPath_src_lt hnew
+    have hdst : tr.2.1 < sims.length := hR _ _ htr
+    have hlenK : (TI.add a tr.2.2).tiers.length ≤ K := by rw [(trigPath_shape hS hnew).2]; exact hK _
+    have hput : ∀ dirty, AncOk sims { (c.put tr.2.1 e.1 (TI.add a tr.2.2)) with dirty := dirty } := fun dirty =>
+      ⟨ancReal_put hreal hnew dirty, by rw [← hlen]; exact AncState.put_length c _ _ _⟩
+    cases hold : lookupTI (c.row tr.2.1) e.1 with
+    | none =>
+      simp only [TI.updateMin?]
+      refine ⟨_, rfl, hput _, Or.inr ?_⟩
+      exact measA_put_lt c hdst hsrc hlen _ _ (fun x hx => by unfold AncState.get at hx; rw [hold] at hx; cases hx)
+    | some old =>
+      have horeal : TrigPath sims e.1 tr.2.1 old := hreal tr.2.1 e.1 old hold
+      have hshape : C08.SameShape old (TI.add a tr.2.2) := trigPath_sameShape hS hU horeal hnew
+      rcases updateMin?_cases hshape with ⟨hu, _⟩ | ⟨hu, hlt⟩
+      · rw [hu]
+        exact ⟨c, rfl, ⟨hreal, hlen⟩, ProgA.refl c⟩
+      · rw [hu]
+        refine ⟨_, rfl, hput _, Or.inr ?_⟩
+        apply measA_put_lt c hdst hsrc hlen
+        intro x hx
+        unfold AncState.get at hx
+        rw [hold] at hx
+        cases hx
+        exact ⟨hlt, hshape.1.symm, hlenK⟩
+
+theorem ancRelax_prog {sims : List SimCfg} (hS : ShapedT sims) (hR : TrigRange sims) (hU : UniformT sims) {K : ℕ}
+    (hK : ∀ t, (sims.getD t {}).depth ≤ K) (st : AncState) (mid : Sid) (hok : AncOk sims st) :
+    ∃ st', ancRelax sims st mid = .ok st' ∧ AncOk sims st' ∧ ProgA sims.length K st st' := by
+  rw [ancRelax_eq]
+  apply foldlM_ok_rel (AncOk sims) (ProgA sims.length K) ProgA.refl (fun _ _ _ => ProgA.trans) _ _ st hok
+  intro b tr htr hb
+  apply foldlM_ok_rel (AncOk sims) (ProgA sims.length K) ProgA.refl (fun _ _ _ => ProgA.trans) _ _ b hb
+  intro c e _ hc
+  exact ancOne_prog hS hR hU hK htr e hc
+
+/-- **the second worklist empties** as well, for every pop order -/
+theorem ancLoop_terminates {sims : List SimCfg} (hS : ShapedT sims) (hR : TrigRange sims) (hU : UniformT sims) {K : ℕ}
+    (hK : ∀ t, (sims.getD t {}).depth ≤ K) :
+    ∀ (M : Meas sims.length K) (L : ℕ) (st : AncState), AncOk sims st → measA sims.length K st = M →
+      st.dirty.length = L → ∀ orc, ∃ k, ∀ fuel, k ≤ fuel → ∃ st', ancLoop sims fuel st orc = .ok st' := by
+  intro M
+  induction M using (wellFounded_lt (α := Meas sims.length K)).induction with
+  | _ M ihM =>
+    intro L
+    induction L using Nat.strongRecOn with
+    | ind L ihL =>
+      intro st hok hM hL orc
+      cases hp : popAt st.dirty (orc.headD 0) with
+      | none =>
+        refine ⟨0, fun fuel _ => ?_⟩
+        have hd : st.dirty = [] := popAt_none hp
+        cases fuel with
+        | zero => exact ⟨st, by unfold ancLoop; simp [hd]⟩
+        | succ f => exact ⟨st, by unfold ancLoop; rw [hp]⟩
+      | some v =>
+        obtain ⟨mid, rest⟩ := v
+        obtain ⟨st1, hrel, hok1, hprog⟩ := ancRelax_prog hS hR hU hK { st with dirty := rest } mid hok
+        have hrest : rest.length + 1 = st.dirty.length := popAt_length hp
+        have ih : ∃ k, ∀ fuel, k ≤ fuel → ∃ st', ancLoop sims fuel st1 orc.tail = .ok st' := by
+          rcases hprog with heq | hlt
+          · subst heq
+            exact ihL rest.length (by omega) _ hok1 hM rfl orc.tail
+          · exact ihM (measA sims.length K st1) (by rw [← hM]; exact hlt) _ st1 hok1 rfl rfl orc.tail
+        obtain ⟨k, hk⟩ := ih
+        refine ⟨k + 1, fun fuel hf => ?_⟩
+        cases fuel with
+        | zero => omega
+        | succ f =>
+          obtain ⟨st', hst'⟩ := hk f (by omega)
+          refine ⟨st', ?_⟩
+          unfold ancLoop
+          rw [hp]
+          simp only [hrel]
+          exact hst'
+
+/-- **`cache_triggering_ancestors` terminates**: when its first loop succeeds, the worklist empties for every pop order -/
+theorem anc_worklist_terminates (sims : List SimCfg) (orc : List Nat) (hS : ShapedT sims) (hR : TrigRange sims) (hU : UniformT sims)
+    {st0 : AncState} (h0 : ancInit sims = .ok st0) :
+    ∃ k, ∀ fuel, k ≤ fuel → ∃ st, ancLoop sims fuel st0 orc = .ok st :=
+  have hinv := ancInit_inv hS hR hU h0
+  ancLoop_terminates hS hR hU (depth_le_sum sims) _ _ st0 ⟨hinv.real, hinv.len⟩ rfl rfl orc
 
 end Mosaik
